@@ -196,7 +196,7 @@ type c07Func struct {
 }
 
 type c07Rule struct {
-	kind string // BEGIN END main
+	kind string // BEGIN END BEGINFILE ENDFILE main
 	pat  *c07Expr
 	body *c07Stmt
 }
@@ -362,7 +362,7 @@ func (p *c07Prog) text() string {
 	for _, r := range p.rules {
 		head := ""
 		switch r.kind {
-		case "BEGIN", "END":
+		case "BEGIN", "END", "BEGINFILE", "ENDFILE":
 			head = r.kind + " "
 		default:
 			if r.pat != nil {
@@ -717,22 +717,34 @@ func (in *c07Interp) exec(s *c07Stmt) c07Sig {
 
 // run executes the whole program over the records of the (array) root.
 func (in *c07Interp) run(p *c07Prog, records []interface{}) c07Sig {
+	return in.runRoots(p, [][]interface{}{records})
+}
+
+// runRoots executes the whole program over a sequence of array roots (the values of a
+// stream, of several files, or the results of several root selectors): BEGIN rules,
+// then per root the BEGINFILE rules, the main rules per record, the ENDFILE rules,
+// then the END rules. `next` in a special rule finishes that rule; `exit` anywhere
+// ends the whole run at once.
+func (in *c07Interp) runRoots(p *c07Prog, roots [][]interface{}) c07Sig {
 	in.frames = []map[string]*c07Cell{{}}
 	in.cover = map[string]int{}
 	in.funcs = map[string]*c07Func{}
 	for _, f := range p.funcs {
 		in.funcs[f.name] = f
 	}
-	special := func(kind string) c07Sig {
+	special := func(kind string, dollar interface{}) c07Sig {
 		for _, r := range p.rules {
 			if r.kind != kind {
 				continue
 			}
-			in.dollar = nil
+			in.dollar = dollar
 			sig := in.exec(r.body)
 			if sig == c07Next {
 				in.cover["next"]++
 				continue
+			}
+			if sig == c07Exit && kind != "BEGIN" && kind != "END" {
+				in.cover["exit_in_"+kind]++
 			}
 			if sig != c07None {
 				return sig
@@ -740,44 +752,56 @@ func (in *c07Interp) run(p *c07Prog, records []interface{}) c07Sig {
 		}
 		return c07None
 	}
-	if sig := special("BEGIN"); sig != c07None {
+	if sig := special("BEGIN", nil); sig != c07None {
 		return sig
 	}
-	for i, rec := range records {
-		in.dollar = rec
-		in.index = float64(i)
-		for _, r := range p.rules {
-			if r.kind != "main" {
-				continue
-			}
-			if r.pat != nil {
-				if r.pat.eval == nil {
-					return c07Fail
+	for _, records := range roots {
+		var rootVal interface{} = records
+		if records == nil {
+			rootVal = []interface{}{}
+		}
+		if sig := special("BEGINFILE", rootVal); sig != c07None {
+			return sig
+		}
+		for i, rec := range records {
+			in.dollar = rec
+			in.index = float64(i)
+			for _, r := range p.rules {
+				if r.kind != "main" {
+					continue
 				}
-				v, sig := r.pat.eval(in)
+				if r.pat != nil {
+					if r.pat.eval == nil {
+						return c07Fail
+					}
+					v, sig := r.pat.eval(in)
+					if sig == c07Next {
+						// next executed while the pattern is evaluated: like next in a body
+						in.cover["next_in_pattern"]++
+						break
+					}
+					if sig != c07None {
+						return sig
+					}
+					if !c07Truthy(v) {
+						continue
+					}
+				}
+				sig := in.exec(r.body)
 				if sig == c07Next {
-					// next executed while the pattern is evaluated: like next in a body
-					in.cover["next_in_pattern"]++
+					in.cover["next"]++
 					break
 				}
 				if sig != c07None {
 					return sig
 				}
-				if !c07Truthy(v) {
-					continue
-				}
-			}
-			sig := in.exec(r.body)
-			if sig == c07Next {
-				in.cover["next"]++
-				break
-			}
-			if sig != c07None {
-				return sig
 			}
 		}
+		if sig := special("ENDFILE", rootVal); sig != c07None {
+			return sig
+		}
 	}
-	return special("END")
+	return special("END", nil)
 }
 
 // ---------------------------------------------------------------- expression builders
@@ -1752,23 +1776,115 @@ func (g *c07Gen) record() string {
 		r.Intn(5), r.Intn(4), ints(r.Intn(5)), obj(r.Intn(5)), str(), nested(), flags(), misc)
 }
 
-// c07Program builds one program with its input document.
-func c07Program(r *rand.Rand, exotic bool) (*c07Prog, *c07Gen, []byte) {
-	g := &c07Gen{r: r, exotic: exotic, nodes: 14 + r.Intn(30), jumps: map[string]int{}}
-	nrec := 1 + r.Intn(3)
-	if chance(r, 0.05) {
-		nrec = 0
+// c07Input is what a structured program runs over: one or several array roots,
+// delivered as the values of one stream, as several files, or as the results of
+// several root selectors over the same value.
+type c07Input struct {
+	files []File
+	sels  []string
+	roots [][]interface{} // the records of each root, in the order the driver visits them
+	shape string
+}
+
+func (in c07Input) meta() string {
+	var sb strings.Builder
+	for _, f := range in.files {
+		fmt.Fprintf(&sb, "%s=%s ", f.Name, string(f.Data))
 	}
-	recs := make([]string, nrec)
-	for i := range recs {
-		recs[i] = g.record()
+	if len(in.sels) > 0 {
+		sb.WriteString("selectors: " + strings.Join(in.sels, " | "))
 	}
-	doc := []byte("[" + strings.Join(recs, ",") + "]")
+	return sb.String()
+}
+
+func c07DecodeRecords(doc string) []interface{} {
 	var root interface{}
-	if err := json.Unmarshal(doc, &root); err != nil {
+	if err := json.Unmarshal([]byte(doc), &root); err != nil {
 		panic("c07: generated document does not decode: " + err.Error())
 	}
-	g.records, _ = root.([]interface{})
+	recs, _ := root.([]interface{})
+	return recs
+}
+
+// input: multi = several roots (so that something would run after an `exit` executed
+// in a BEGINFILE / ENDFILE rule: further values, files, selector roots).
+func (g *c07Gen) input(multi bool) c07Input {
+	r := g.r
+	value := func() string {
+		nrec := 1 + r.Intn(3)
+		if chance(r, 0.05) || (multi && chance(r, 0.1)) {
+			nrec = 0
+		}
+		recs := make([]string, nrec)
+		for i := range recs {
+			recs[i] = g.record()
+		}
+		return "[" + strings.Join(recs, ",") + "]"
+	}
+	if !multi {
+		doc := value()
+		return c07Input{files: []File{{Name: "in.json", Data: []byte(doc)}}, roots: [][]interface{}{c07DecodeRecords(doc)}, shape: "one-value"}
+	}
+	var in c07Input
+	names := []string{"a.json", "b.json", "c.json"}
+	switch r.Intn(5) {
+	case 0: // one stream of 2-3 values
+		in.shape = "stream"
+		var docs []string
+		for i, n := 0, 2+r.Intn(2); i < n; i++ {
+			d := value()
+			docs = append(docs, d)
+			in.roots = append(in.roots, c07DecodeRecords(d))
+		}
+		in.files = []File{{Name: "in.jsonl", Data: []byte(strings.Join(docs, pick(r, []string{"\n", " ", ""})))}}
+	case 1: // 2-3 files of one value
+		in.shape = "files"
+		for i, n := 0, 2+r.Intn(2); i < n; i++ {
+			d := value()
+			in.files = append(in.files, File{Name: names[i], Data: []byte(d)})
+			in.roots = append(in.roots, c07DecodeRecords(d))
+		}
+	case 2: // 2-3 selectors over one value: every root is a conversion of the same document
+		in.shape = "selectors"
+		d := value()
+		in.files = []File{{Name: "in.json", Data: []byte(d)}}
+		for i, n := 0, 2+r.Intn(2); i < n; i++ {
+			in.sels = append(in.sels, "$")
+			in.roots = append(in.roots, c07DecodeRecords(d))
+		}
+	case 3: // two files, the first with two values
+		in.shape = "files-of-streams"
+		for i := 0; i < 2; i++ {
+			var docs []string
+			for j, n := 0, 2-i; j < n; j++ {
+				d := value()
+				docs = append(docs, d)
+				in.roots = append(in.roots, c07DecodeRecords(d))
+			}
+			in.files = append(in.files, File{Name: names[i], Data: []byte(strings.Join(docs, "\n"))})
+		}
+	default: // a stream of two values x two selectors
+		in.shape = "stream-x-selectors"
+		in.sels = []string{"$", "$"}
+		var docs []string
+		for i := 0; i < 2; i++ {
+			d := value()
+			docs = append(docs, d)
+			in.roots = append(in.roots, c07DecodeRecords(d), c07DecodeRecords(d))
+		}
+		in.files = []File{{Name: "in.jsonl", Data: []byte(strings.Join(docs, "\n"))}}
+	}
+	return in
+}
+
+// c07Program builds one program with its input. multi: several roots and BEGINFILE /
+// ENDFILE rules (with jumps of their own) besides BEGIN, the main rules and END.
+func c07Program(r *rand.Rand, exotic, multi bool) (*c07Prog, *c07Gen, c07Input) {
+	g := &c07Gen{r: r, exotic: exotic, nodes: 14 + r.Intn(30), jumps: map[string]int{}}
+	input := g.input(multi)
+	if len(input.roots) > 0 {
+		g.records = input.roots[0]
+	}
 
 	p := &c07Prog{}
 	nf := r.Intn(4)
@@ -1791,6 +1907,9 @@ func c07Program(r *rand.Rand, exotic bool) (*c07Prog, *c07Gen, []byte) {
 			g.nodes = 10 + r.Intn(25)
 		}
 		c := c07Ctx{inRecord: inRecord, mult: 1, fnIdx: len(g.funcs), cost: &cost}
+		if kind == "BEGINFILE" || kind == "ENDFILE" {
+			c.intVars = []string{"nr"} // the number of roots entered so far: conditions (and jumps) that depend on the root
+		}
 		return c07Rule{kind: kind, body: g.block(c, size)}
 	}
 	if chance(r, 0.3) {
@@ -1799,10 +1918,13 @@ func c07Program(r *rand.Rand, exotic bool) (*c07Prog, *c07Gen, []byte) {
 	// 1-4 main rules; any of them may have a pattern, so that a pattern that executes
 	// next / exit is followed by 0-3 further rules (with and without patterns)
 	nmain := pick(r, []int{1, 2, 2, 2, 3, 3, 4})
+	if multi {
+		nmain = pick(r, []int{1, 1, 2, 2, 3})
+	}
 	big := r.Intn(nmain)
 	for j := 0; j < nmain; j++ {
 		size := 1
-		if j == big {
+		if j == big && !multi {
 			size = 2
 		}
 		rl := mk("main", true, size)
@@ -1811,7 +1933,7 @@ func c07Program(r *rand.Rand, exotic bool) (*c07Prog, *c07Gen, []byte) {
 		}
 		p.rules = append(p.rules, rl)
 	}
-	if chance(r, 0.6) {
+	if chance(r, map[bool]float64{true: 0.9, false: 0.6}[multi]) {
 		e := mk("END", false, 1)
 		e.body.list = append(e.body.list, &c07Stmt{kind: "print", args: []*c07Expr{c07StrE(nil, "END"), c07Var("acc"), c07Var("res")}})
 		p.rules = append(p.rules, e)
@@ -1819,7 +1941,70 @@ func c07Program(r *rand.Rand, exotic bool) (*c07Prog, *c07Gen, []byte) {
 	if chance(r, 0.15) {
 		p.rules = append(p.rules, mk("END", false, 1))
 	}
-	return p, g, doc
+	if multi {
+		// per-root rules at random places of the source: the first BEGINFILE rule of the source counts
+		// the roots; most ENDFILE rules (and some BEGINFILE rules) carry a jump of their own
+		// (exit mostly), bare or under a condition that may depend on the root number, directly in
+		// the rule or inside a loop; a further rule of the same kind often follows
+		var extra []c07Rule
+		nbf := pick(r, []int{1, 1, 1, 2})
+		for j := 0; j < nbf; j++ {
+			rl := mk("BEGINFILE", false, 1)
+			c := c07Ctx{mult: 1, fnIdx: len(g.funcs), cost: &cost, intVars: []string{"nr"}}
+			if chance(r, 0.35) {
+				rl.body.list = append(rl.body.list, g.specialJump(c), g.trace(c))
+			}
+			extra = append(extra, rl)
+		}
+		nef := pick(r, []int{1, 1, 2, 2, 3})
+		for j := 0; j < nef; j++ {
+			rl := mk("ENDFILE", false, 1)
+			c := c07Ctx{mult: 1, fnIdx: len(g.funcs), cost: &cost, intVars: []string{"nr"}}
+			if chance(r, map[bool]float64{true: 0.7, false: 0.3}[j == 0]) {
+				at := r.Intn(len(rl.body.list) + 1)
+				rest := append([]*c07Stmt{g.specialJump(c), g.trace(c)}, rl.body.list[at:]...)
+				rl.body.list = append(rl.body.list[:at:at], rest...)
+			}
+			extra = append(extra, rl)
+		}
+		for _, rl := range extra {
+			at := r.Intn(len(p.rules) + 1)
+			p.rules = append(p.rules[:at:at], append([]c07Rule{rl}, p.rules[at:]...)...)
+		}
+		// the BEGINFILE rule that comes first in the source counts the roots (no per-root rule
+		// ever sees the counter unset: an unset loop bound would compare as "less" for ever)
+		for i := range p.rules {
+			if p.rules[i].kind == "BEGINFILE" {
+				p.rules[i].body.list = append([]*c07Stmt{{kind: "assign", v1: "nr", cond: c07Bin("+", c07Var("nr"), c07Lit(1))}}, p.rules[i].body.list...)
+				break
+			}
+		}
+	}
+	return p, g, input
+}
+
+// specialJump: a jump for a BEGINFILE / ENDFILE rule: exit (mostly) or next, bare, under
+// a condition, or inside a loop under a condition.
+func (g *c07Gen) specialJump(c c07Ctx) *c07Stmt {
+	kinds := []string{"exit", "exit", "exit", "next"}
+	j := g.guarded(c, kinds...)
+	// conditions on the root counter: leave at the first / second / a later root
+	if chance(g.r, 0.5) {
+		j = &c07Stmt{kind: "if", cond: c07Bin(pick(g.r, []string{"==", ">=", ">"}), c07Var("nr"), c07Lit(1+g.r.Intn(3))), body: g.jumpOf(c, kinds...), style: g.r.Intn(4)}
+	}
+	switch g.r.Intn(4) {
+	case 0:
+		v := g.fresh("i")
+		c2 := c
+		c2.inLoop = true
+		return &c07Stmt{kind: "for", v1: v, bound: c07Lit(1 + g.r.Intn(3)), style: g.r.Intn(2),
+			body: &c07Stmt{kind: "block", list: []*c07Stmt{g.trace(c2), j, g.trace(c2)}}}
+	case 1:
+		v := g.fresh("x")
+		return &c07Stmt{kind: "forin", v1: v, cond: c07ArrLit(g.r, []interface{}{float64(1), float64(7)}),
+			body: &c07Stmt{kind: "block", list: []*c07Stmt{j, g.trace(c)}}}
+	}
+	return j
 }
 
 func c07Hist(m map[string]int) string {
@@ -1857,18 +2042,18 @@ func c07Short(s string) string {
 func init() {
 	register(Family{
 		Name: "structured-programs", Prop: "C07",
-		Rule: "random structured programs (nesting <= 6): if/else chains incl. dangling else, while, 3-clause for, for-in over arrays/objects/strings (1 and 2 variables, multi-byte and invalid UTF-8, empty), blocks, match statements, functions, break/continue/return/next/exit anywhere, a print trace after every statement, bounds and conditions from the document; oracle: trace of a Go reference interpreter of the same AST (all non-exotic programs); non-trivial = runs (ok or runtime error) with a non-empty trace",
+		Rule: "random structured programs (nesting <= 6): if/else chains incl. dangling else, while, 3-clause for, for-in over arrays/objects/strings (1 and 2 variables, multi-byte and invalid UTF-8, empty), blocks, match statements, functions, break/continue/return/next/exit anywhere, a print trace after every statement, bounds and conditions from the document; 30 % of the programs run over SEVERAL roots (2-3 values in one stream, 2-3 files, 2-3 root selectors over one value, files of streams, stream x selectors; empty arrays among them) and have 1-2 BEGINFILE and 1-3 ENDFILE rules at random places of the source, the first BEGINFILE rule counting the roots, most ENDFILE and a third of the BEGINFILE rules with a jump of their own (exit 3 : next 1; bare, under a condition on constants / the root counter, inside a for or for-in loop) followed by further statements, further rules of the same kind, further roots and an END rule; oracle: trace of a Go reference interpreter of the same AST (all non-exotic programs); non-trivial = runs (ok or runtime error) with a non-empty trace",
 		Gen: func(r *rand.Rand, tier string, emit func(Case)) {
-			n := tierN(tier, 4000, 60000)
+			n := tierN(tier, 3600, 60000) // quick: 3600 (4000 before the several-root programs, which cost more each)
 			for i := 0; i < n; i++ {
 				exotic := chance(r, 0.25)
-				p, g, doc := c07Program(r, exotic)
+				multi := chance(r, 0.3)
+				p, g, input := c07Program(r, exotic, multi)
 				text := p.text()
-				files := []File{{Name: "in.json", Data: doc}}
-				c := Case{Req: RunReq(text, nil, files, false), Fields: []string{"class", "out"},
-					Meta: metaProg(text, "input", string(doc), "generated_jumps", c07Hist(g.jumps))}
+				c := Case{Req: RunReq(text, input.sels, input.files, false), Fields: []string{"class", "out"},
+					Meta: metaProg(text, "input", input.meta(), "input_shape", input.shape, "generated_jumps", c07Hist(g.jumps))}
 				in := &c07Interp{}
-				sig := in.run(p, g.records)
+				sig := in.runRoots(p, input.roots)
 				if sig != c07Fail {
 					want := in.out.String()
 					c.Oracle = c07OutOracle(want)
@@ -1891,9 +2076,9 @@ func init() {
 	})
 	register(Family{
 		Name: "control-laws", Prop: "C07",
-		Rule: "small parametric programs with a closed-form expected trace computed in Go: continue on odd i prints the evens (for: post-expression runs; while: increment first), break leaves only the innermost loop, dangling else, return leaves only the function, for-in visits every element once in order (arrays with index, objects with sorted keys, strings by runes with byte offsets), next / exit; next / exit reached while a PATTERN is evaluated (a called function, a match expression with block bodies, one inside the other, under !, &&, ||, ==, as a match subject) with 0-1 rules before and 1-3 rules after it, with and without patterns, a second jumping pattern further down: next abandons every remaining rule of the record, exit ends the run without END",
+		Rule: "small parametric programs with a closed-form expected trace computed in Go: continue on odd i prints the evens (for: post-expression runs; while: increment first), break leaves only the innermost loop, dangling else, return leaves only the function, for-in visits every element once in order (arrays with index, objects with sorted keys, strings by runes with byte offsets), next / exit; next / exit reached while a PATTERN is evaluated (a called function, a match expression with block bodies, one inside the other, under !, &&, ||, ==, as a match subject) with 0-1 rules before and 1-3 rules after it, with and without patterns, a second jumping pattern further down: next abandons every remaining rule of the record, exit ends the run without END; exit / next executed in EVERY rule kind (BEGIN, BEGINFILE, pattern rules, ENDFILE, END; 1-2 jump rules among 5-12 tagged rules in shuffled source order) at the t-th execution of the rule, directly, under if/else, from a for / while / for-in loop, from a function, two functions deep, from loops inside a function, from a match statement body, from the block body of a match expression (assigned, or as a print argument), over 1-3 files x 1-3 values (arrays and scalars) x 0-3 root selectors: exit ends the whole run (no later rule of the kind, no further record / value / file / selector root, no END), next ends only the rule (pattern rules: the record)",
 		Gen: func(r *rand.Rand, tier string, emit func(Case)) {
-			n := tierN(tier, 900, 9000)
+			n := tierN(tier, 1300, 13000)
 			for i := 0; i < n; i++ {
 				c07Law(r, emit)
 			}
@@ -2112,9 +2297,12 @@ func c07Law(r *rand.Rand, emit func(Case)) {
 	n, m := r.Intn(7), r.Intn(5)
 	var prog, doc string
 	var want strings.Builder
-	switch r.Intn(13) {
+	switch r.Intn(18) {
 	case 9, 10, 11, 12:
 		c07LawPatternJump(r, emit)
+		return
+	case 13, 14, 15, 16, 17:
+		c07LawSpecialJump(r, emit)
 		return
 	case 0: // for + continue on odd
 		doc = fmt.Sprintf(`{"n":%d}`, n)
@@ -2233,6 +2421,286 @@ func c07Law(r *rand.Rand, emit func(Case)) {
 	}
 	emit(Case{Req: RunReq(prog, nil, []File{{Name: "in.json", Data: []byte(doc)}}, false), Fields: []string{"class", "out"},
 		Meta: metaProg(prog, "input", doc), Oracle: c07OutOracle(want.String()),
+		NonTrivial: func(i Resp) bool { return i["class"] == "ok" }})
+}
+
+// c07LawSpecialJump: `exit` ends the whole run and `next` only the rule, from ANY rule
+// kind and from any construct inside it. Every rule prints its tag; 1-2 "jump rules" of
+// kind BEGIN / BEGINFILE / pattern / ENDFILE / END count their own executions and leave
+// by exit / next at the t-th one: directly, under if / else, from a three-clause for, a
+// while, a for-in, a function, two functions deep, a loop inside a function, a match
+// statement body, the block body of a match expression. Something always follows the
+// jump: further statements of the rule, later rules of the same kind, further records,
+// further values of the stream, further files, further -r roots, END rules. The trace is
+// computed in closed form from the schedule of the property.
+func c07LawSpecialJump(r *rand.Rand, emit func(Case)) {
+	// ---- input: 1-3 files x 1-3 values x 0-3 selectors
+	type root struct {
+		file string
+		recs []string // the records as print shows them
+	}
+	render := func(v []int, isArr bool) string {
+		if !isArr {
+			return strconv.Itoa(v[0])
+		}
+		parts := make([]string, len(v))
+		for i, x := range v {
+			parts[i] = strconv.Itoa(x)
+		}
+		return "[" + strings.Join(parts, ", ") + "]"
+	}
+	var sels []string
+	for n := pick(r, []int{0, 0, 0, 1, 2, 2, 3}); n > 0; n-- {
+		sels = append(sels, pick(r, []string{"$", "$", "[$]", "[8, 9]"}))
+	}
+	var files []File
+	var roots []root
+	names := []string{"a.json", "b.json", "c.json"}
+	nf := pick(r, []int{1, 1, 2, 2, 3})
+	for f := 0; f < nf; f++ {
+		var docs []string
+		for nv := pick(r, []int{1, 1, 2, 3}); nv > 0; nv-- {
+			isArr := chance(r, 0.8)
+			vals := []int{r.Intn(5)}
+			if isArr {
+				vals = vals[:0]
+				for n := r.Intn(4); n > 0; n-- {
+					vals = append(vals, r.Intn(5))
+				}
+			}
+			docs = append(docs, strings.ReplaceAll(render(vals, isArr), " ", ""))
+			elems := func() []string {
+				if !isArr {
+					return []string{strconv.Itoa(vals[0])}
+				}
+				out := make([]string, len(vals))
+				for i, x := range vals {
+					out[i] = strconv.Itoa(x)
+				}
+				return out
+			}
+			if len(sels) == 0 {
+				roots = append(roots, root{names[f], elems()})
+			}
+			for _, sel := range sels {
+				switch sel {
+				case "$":
+					roots = append(roots, root{names[f], elems()})
+				case "[$]":
+					roots = append(roots, root{names[f], []string{render(vals, isArr)}})
+				default:
+					roots = append(roots, root{names[f], []string{"8", "9"}})
+				}
+			}
+		}
+		files = append(files, File{Name: names[f], Data: []byte(strings.Join(docs, pick(r, []string{"\n", " ", "\n\n"})))})
+	}
+	nrec := 0
+	for _, ro := range roots {
+		nrec += len(ro.recs)
+	}
+
+	// ---- rules
+	type rule struct {
+		kind  string // BEGIN BEGINFILE main ENDFILE END
+		tag   string
+		jump  bool
+		exit  bool // else next
+		t     int  // the jump happens at the t-th execution of the rule
+		form  int
+		count int // executions so far (simulation)
+	}
+	var rules []*rule
+	add := func(kind string, n int) {
+		for ; n > 0; n-- {
+			rules = append(rules, &rule{kind: kind})
+		}
+	}
+	add("BEGIN", r.Intn(3))
+	add("BEGINFILE", 1+r.Intn(2))
+	add("main", 1+r.Intn(2))
+	add("ENDFILE", 1+r.Intn(3))
+	add("END", 1+r.Intn(2))
+	const nforms = 12
+	for n := pick(r, []int{1, 1, 1, 2}); n > 0; n-- {
+		kind := pick(r, []string{"BEGIN", "BEGINFILE", "BEGINFILE", "BEGINFILE", "main", "main", "ENDFILE", "ENDFILE", "ENDFILE", "ENDFILE", "END"})
+		ru := &rule{kind: kind, jump: true, exit: chance(r, 0.75), form: r.Intn(nforms)}
+		runs := 1
+		switch kind {
+		case "BEGINFILE", "ENDFILE":
+			runs = len(roots)
+		case "main":
+			runs = nrec
+		}
+		ru.t = 1 + r.Intn(runs+1)
+		if ru.t > runs && chance(r, 0.7) && runs > 0 {
+			ru.t = 1 + r.Intn(runs) // mostly reached
+		}
+		rules = append(rules, ru)
+	}
+	r.Shuffle(len(rules), func(i, j int) { rules[i], rules[j] = rules[j], rules[i] })
+	var funcs, texts []string
+	for i, ru := range rules {
+		ru.tag = map[string]string{"BEGIN": "B", "BEGINFILE": "BF", "main": "P", "ENDFILE": "EF", "END": "E"}[ru.kind] + strconv.Itoa(i)
+		head := ru.kind + " "
+		info := ""
+		switch ru.kind {
+		case "main":
+			head = pick(r, []string{"", "", "true ", "1 "})
+			info = ", $, $file"
+		case "BEGINFILE", "ENDFILE":
+			info = ", $file"
+		}
+		if !ru.jump {
+			texts = append(texts, fmt.Sprintf("%s{ print \"%s\"%s }", head, ru.tag, info))
+			continue
+		}
+		k := "k" + strconv.Itoa(i)
+		j := "next"
+		if ru.exit {
+			j = "exit"
+		}
+		cond := fmt.Sprintf("%s == %d", k, ru.t)
+		var st string
+		switch ru.form {
+		case 0:
+			st = fmt.Sprintf("if (%s) %s", cond, j)
+		case 1:
+			st = fmt.Sprintf("if (%s != %d) {\n    print \"%s-else\"\n  } else {\n    %s\n  }", k, ru.t, ru.tag, j)
+		case 2:
+			st = fmt.Sprintf("for (i = 0; i < 3; i++) {\n    print \"%s-loop\", i\n    if (%s && i == 1) %s\n  }", ru.tag, cond, j)
+		case 3:
+			st = fmt.Sprintf("w = 0\n  while (w < 2) {\n    w++\n    print \"%s-loop\", w\n    if (%s)\n      %s\n  }", ru.tag, cond, j)
+		case 4:
+			st = fmt.Sprintf("for (x in [1, 2]) {\n    if (%s && x == 2) { %s }\n    print \"%s-loop\", x\n  }", cond, j, ru.tag)
+		case 5:
+			funcs = append(funcs, fmt.Sprintf("function stop%d(v) { if (v == %d) %s\n return v }", i, ru.t, j))
+			st = fmt.Sprintf("stop%d(%s)", i, k)
+		case 6:
+			funcs = append(funcs, fmt.Sprintf("function outer%d(v) { return inner%d(v) + 0 }", i, i), fmt.Sprintf("function inner%d(v) { if (v == %d) { %s }\n return v }", i, ru.t, j))
+			st = fmt.Sprintf("y = outer%d(%s)", i, k)
+		case 7:
+			funcs = append(funcs, fmt.Sprintf("function scan%d(v) { for (q in [0, 1, 2]) { while (true) { if (v == %d && q == 1) %s\n break }\n }\n return v }", i, ru.t, j))
+			st = fmt.Sprintf("scan%d(%s)", i, k)
+		case 8:
+			st = fmt.Sprintf("match (%s) { %d => { %s }, q => { z = q } }\n", k, ru.t, j)
+		case 9:
+			st = fmt.Sprintf("y = match (%s) { %d => { %s }, q => q + 1 }\n", k, ru.t, j)
+		case 10:
+			st = fmt.Sprintf("if (%s == %d) { for (x in \"ab\") { for (i = 0; i < 2; i++) { %s } } }", k, ru.t, j)
+		default:
+			st = fmt.Sprintf("print \"%s-arg\", match (%s) { %d => { %s }, q => q }\n", ru.tag, k, ru.t, j)
+		}
+		texts = append(texts, fmt.Sprintf("%s{\n  %s++\n  print \"%s\", %s%s\n  %s\n  print \"%s-after\", %s\n}", head, k, ru.tag, k, info, strings.TrimSuffix(st, "\n"), ru.tag, k))
+	}
+	prog := strings.Join(append(funcs, texts...), "\n") + "\n"
+
+	// ---- the schedule
+	var want strings.Builder
+	const (
+		flowOK = iota
+		flowNext
+		flowExit
+	)
+	exitedIn := ""
+	run := func(ru *rule, info string) int {
+		if !ru.jump {
+			fmt.Fprintf(&want, "%s%s\n", ru.tag, info)
+			return flowOK
+		}
+		ru.count++
+		hit := ru.count == ru.t
+		fmt.Fprintf(&want, "%s %d%s\n", ru.tag, ru.count, info)
+		switch ru.form {
+		case 1:
+			if !hit {
+				fmt.Fprintf(&want, "%s-else\n", ru.tag)
+			}
+		case 2:
+			for i := 0; i < 3; i++ {
+				fmt.Fprintf(&want, "%s-loop %d\n", ru.tag, i)
+				if hit && i == 1 {
+					break
+				}
+			}
+		case 3:
+			for w := 1; w <= 2; w++ {
+				fmt.Fprintf(&want, "%s-loop %d\n", ru.tag, w)
+				if hit {
+					break
+				}
+			}
+		case 4:
+			for x := 1; x <= 2; x++ {
+				if hit && x == 2 {
+					break
+				}
+				fmt.Fprintf(&want, "%s-loop %d\n", ru.tag, x)
+			}
+		case 11:
+			if !hit {
+				fmt.Fprintf(&want, "%s-arg %d\n", ru.tag, ru.count)
+			}
+		}
+		if hit {
+			if ru.exit {
+				exitedIn = ru.kind
+				return flowExit
+			}
+			return flowNext
+		}
+		fmt.Fprintf(&want, "%s-after %d\n", ru.tag, ru.count)
+		return flowOK
+	}
+	special := func(kind, info string) bool {
+		for _, ru := range rules {
+			if ru.kind == kind && run(ru, info) == flowExit {
+				return false
+			}
+		}
+		return true
+	}
+	func() {
+		if !special("BEGIN", "") {
+			return
+		}
+		for _, ro := range roots {
+			if !special("BEGINFILE", " "+ro.file) {
+				return
+			}
+		records:
+			for _, rec := range ro.recs {
+				for _, ru := range rules {
+					if ru.kind != "main" {
+						continue
+					}
+					switch run(ru, " "+rec+" "+ro.file) {
+					case flowExit:
+						return
+					case flowNext:
+						continue records
+					}
+				}
+			}
+			if !special("ENDFILE", " "+ro.file) {
+				return
+			}
+		}
+		special("END", "")
+	}()
+	var jumps []string
+	for _, ru := range rules {
+		if ru.jump {
+			jumps = append(jumps, fmt.Sprintf("%s:%s@%d/form%d", ru.tag, map[bool]string{true: "exit", false: "next"}[ru.exit], ru.t, ru.form))
+		}
+	}
+	if exitedIn == "" {
+		exitedIn = "-"
+	}
+	emit(Case{Req: RunReq(prog, sels, files, false), Fields: []string{"class", "out"},
+		Meta: metaProg(prog, "input", c02FilesMeta(files), "selectors", strings.Join(sels, " | "), "law", "exit ends the run / next ends the rule, from every rule kind",
+			"jumps", strings.Join(jumps, " "), "roots", strconv.Itoa(len(roots)), "exit_executed_in", exitedIn),
+		Oracle:     c07OutOracle(want.String()),
 		NonTrivial: func(i Resp) bool { return i["class"] == "ok" }})
 }
 
